@@ -221,7 +221,7 @@ def run(ck):
                        ("first-axis slice", lambda sh: numpy.zeros((2,) + sh)[1]))
             for P in (2, 3, 5):
                 for lname, mk in layouts:
-                    for sh in ((3, 4), (2, 3, 2, 3)):
+                    for sh in ((3, 4), (2, 3, 2, 3), (5,), (4, 3, 2)):
                         lo_, hi_ = ck.rng.randint(-3, 3), ck.rng.randint(4, 11)
                         term = lambda i_: numpy.arange(int(numpy.prod(sh)), dtype=float).reshape(sh) * (i_ * i_ + 1.0) + i_
                         serial = sum(term(i_) for i_ in range(lo_, hi_))
